@@ -102,17 +102,20 @@ import GqlProofs.Validate.OverlapWitness
                                  resolve to input types), `rootsInput` (declared types of typed values resolve
                                  to input types), `numLiteralsOK` (numeric literals are lexemes on which the
                                  library's conversion and the specification's range tests agree — PROVED for
-                                 Int (`int_lexeme_agree`), hypothesis for Float; it also excludes the finding
-                                 below), `leavesWellFormed`, `usePosDistinct`; `_loaded`, `_partial` (no
+                                 IntValue lexemes of any size, hypothesis for FloatValue texts:
+                                 `C08_ValuesOfCorrectType_numeric_hypothesis`), `leavesWellFormed`,
+                                 `usePosDistinct`; `_loaded`, `_partial` (no
                                  `@oneOf`), `_closed`, `_complete`.
   Every hypothesis has a satisfiability example and (where one exists) a kernel-checked
   counterexample next to the theorem or in `GqlProofs/ValSpec/*Ex.lean`.
 
-  FINDING met on the way (confirmed on the real validator with the driver ops): an IntValue that
-  does not fit a finite double, given where a Float is expected (`{ f(a: 1<309 zeros>) }` with
-  `a: Float`), is accepted by ValuesOfCorrectType — the Int-at-Float branch has no range test — and
-  rejected by `Spec.valuesOfCorrectType` (§3.5.2: a value not representable by finite IEEE 754 is a
-  request error): `ValuesEx.bigInt` in `GqlProofs/ValSpec/ValuesCorrectEx.lean`.
+  FINDING met on the way, since REPAIRED in the library ("an integer literal beyond the range of a
+  double is not a Float"; the model follows): an IntValue that does not fit a finite double, given
+  where a Float is expected (`{ f(a: 1<309 zeros>) }` with `a: Float`), was accepted by
+  ValuesOfCorrectType — the Int-at-Float branch had no range test — and rejected by
+  `Spec.valuesOfCorrectType` (§3.5.2).  Now `C08_ValuesOfCorrectType_int_beyond_double_rejected`,
+  `C08_ValuesOfCorrectType_int_double_boundary`; the part of `numLiteralsOK` that excluded the case
+  is gone (an IntValue lexeme of ANY size satisfies its part: `numLeafOK_int_of_lexeme`).
 
   Capstone: C08_default_rules_iff_spec_partial — the 26 default rules above run TOGETHER report
   nothing iff the 27 predicates of `Spec.specVerdicts` they stand for hold (all but field merging
@@ -123,7 +126,7 @@ import GqlProofs.Validate.OverlapWitness
   NOT finished (the full statement, kept as the goal):
     C08_verdict : Closed s → (validate defaultRules s d = .ok [] ↔ Spec.specValid s d = true)
   It is FALSE for the current tree as stated: the recorded finding about VariablesInAllowedPosition
-  (DESIGN §7 R8e, KNOWN_FINDINGS) and the Int-at-Float finding above are counterexamples; and the
+  (DESIGN §7 R8e, KNOWN_FINDINGS) is a counterexample; and the
   hypotheses of `C08Hyps` that are not consequences of `Closed s` + "parsed document" mark inputs on
   which single rules and their predicates differ while both sides reject (the check compares those
   under masks).  The one rule without an equivalence theorem: OverlappingFieldsCanBeMerged
@@ -1334,21 +1337,46 @@ theorem C08_ValuesOfCorrectType_loaded (s : Schema) (d : QueryDoc)
 #print axioms C08_ValuesOfCorrectType_complete
 end C08
 
-/-- FINDING (a verdict-level disagreement on parser-produced input, confirmed on the real validator):
+/-- REPAIRED finding ("an integer literal beyond the range of a double is not a Float"):
     `{ f(a: 1<309 zeros>) }` with `f(a: Float): Int` — an IntValue that no finite double represents, given
-    where a Float is expected — is accepted by ValuesOfCorrectType (and by every other rule) while
-    `Spec.valuesOfCorrectType` is false (§3.5.2).  All hypotheses of `C08_ValuesOfCorrectType` except
-    `numLiteralsOK` hold. -/
-theorem C08_ValuesOfCorrectType_counterexample_int_beyond_double :
+    where a Float is expected — IS reported by ValuesOfCorrectType now (the finite-double test of FloatValue
+    literals is applied to the integer text too), as `Spec.valuesOfCorrectType` demands (§3.5.2); all hypotheses
+    of `C08_ValuesOfCorrectType` hold for it, `numLiteralsOK` included (it is a theorem for IntValue lexemes of
+    any size: `numLeafOK_int_of_lexeme`).  Before the repair the rule was silent here. -/
+theorem C08_ValuesOfCorrectType_int_beyond_double_rejected :
     let s := Gql.Validate.ValuesEx.schemaWith (Gql.Validate.Witness.tNamed "Float") []
     let d := Gql.Validate.ValuesEx.docArg Gql.Validate.ValuesEx.bigInt
-    Gql.Validate.validate [Gql.Validate.Rules.valuesOfCorrectType] s d = .ok [] ∧
-      Gql.Validate.Spec.valuesOfCorrectType s d = false ∧ Gql.Validate.numLiteralsOK s d = false ∧
+    Gql.Validate.validate [Gql.Validate.Rules.valuesOfCorrectType] s d =
+        .ok [{ rule := str "ValuesOfCorrectType",
+               msg := str "Float cannot represent non numeric value: " ++ Gql.Validate.ValuesEx.bigInt.raw,
+               locs := [(1, 11)] }] ∧
+      Gql.Validate.Spec.valuesOfCorrectType s d = false ∧ Gql.Validate.numLiteralsOK s d = true ∧
       (Gql.Validate.Spec.wellParented s d && Gql.Validate.schemaOK s && Gql.Validate.rootsInput s d &&
         Gql.Validate.leavesWellFormed s d) = true := by
   decide +kernel
 
-#print axioms C08_ValuesOfCorrectType_counterexample_int_beyond_double
+/-- the boundary: the largest integer that rounds to a finite double (`2^1024 - 2^970 - 1`) is accepted for a
+    Float by the rule and the specification, the next one is rejected by both -/
+theorem C08_ValuesOfCorrectType_int_double_boundary :
+    let s := Gql.Validate.ValuesEx.schemaWith (Gql.Validate.Witness.tNamed "Float") []
+    (Gql.Validate.validate [Gql.Validate.Rules.valuesOfCorrectType] s
+        (Gql.Validate.ValuesEx.docArg Gql.Validate.ValuesEx.lastFinite) = .ok [] ∧
+      Gql.Validate.Spec.valuesOfCorrectType s (Gql.Validate.ValuesEx.docArg Gql.Validate.ValuesEx.lastFinite) = true) ∧
+    (Gql.Validate.validate [Gql.Validate.Rules.valuesOfCorrectType] s
+        (Gql.Validate.ValuesEx.docArg Gql.Validate.ValuesEx.firstInfinite) ≠ .ok [] ∧
+      Gql.Validate.Spec.valuesOfCorrectType s (Gql.Validate.ValuesEx.docArg Gql.Validate.ValuesEx.firstInfinite) = false) := by
+  decide +kernel
+
+/-- what is left of the numeric hypothesis of `C08_ValuesOfCorrectType` for lexer-produced literals: IntValues
+    need nothing beyond being `-?[0-9]+` texts; for FloatValues the agreement of the library's `ParseFloat`
+    (error or ±Inf) with `Spec.floatLitFinite` on the text remains a hypothesis -/
+theorem C08_ValuesOfCorrectType_numeric_hypothesis (s : Schema) (d : QueryDoc)
+    (h : Gql.Validate.numLiteralsLexemes s d = true) : Gql.Validate.numLiteralsOK s d = true :=
+  Gql.Validate.numLiteralsOK_of_lexemes s d h
+
+#print axioms C08_ValuesOfCorrectType_int_beyond_double_rejected
+#print axioms C08_ValuesOfCorrectType_int_double_boundary
+#print axioms C08_ValuesOfCorrectType_numeric_hypothesis
 
 /-! ## Capstone: the rules with a proved equivalence, run together -/
 section C08
@@ -1430,7 +1458,7 @@ structure C08Hyps (s : Schema) (d : QueryDoc) : Prop where
   argTypes : Gql.Spec.ClosedArgTypes s
   directiveArgTypes : Gql.Spec.ClosedDirectiveArgTypes s
   /-- numeric literals are IntValue / FloatValue lexemes on which the library's conversion and the
-      specification's range tests agree; in particular no IntValue beyond the finite doubles (finding) -/
+      specification's range tests agree (a theorem for IntValue lexemes, `numLiteralsOK_of_lexemes`) -/
   numLiterals : numLiteralsOK s d = true
   /-- leaf literals are lexemes of their kind (lexer) -/
   leaves : leavesWellFormed s d = true
